@@ -315,8 +315,12 @@ impl<'a> R<'a> {
         }
         let mut s = " ".repeat(self.rng.range(min, min + 2));
         if !s.is_empty() && self.rng.chance(1, 6) {
-            s.push_str("$\n");
-            s.push_str(&" ".repeat(self.rng.range(0, 6)));
+            // one continuation, sometimes several in a row (a wrapped list with an entry blanked out)
+            let n = if self.rng.chance(1, 3) { self.rng.range(2, 3) } else { 1 };
+            for _ in 0..n {
+                s.push_str("$\n");
+                s.push_str(&" ".repeat(self.rng.range(0, 6)));
+            }
         }
         s
     }
@@ -432,7 +436,7 @@ pub fn render(am: &AM, rng: &mut Rng, plain: bool) -> Rendered {
                         t.push_str(&r.gap(1));
                         t.push_str(&r.ev(p, true));
                     }
-                    t.push_str(&r.sp(0, 2));
+                    t.push_str(&r.gap(0));
                     t.push('\n');
                 }
                 Stmt::Include(f) | Stmt::Subninja(f) => {
@@ -475,7 +479,7 @@ pub fn render(am: &AM, rng: &mut Rng, plain: bool) -> Rendered {
                             t.push_str(&r.ev(p, true));
                         }
                     }
-                    t.push_str(&r.sp(0, 2));
+                    t.push_str(&r.gap(0));
                     t.push('\n');
                     r.binds(binds, &mut t);
                     let last = t.matches('\n').count();
@@ -534,6 +538,18 @@ impl<'a> Gen<'a> {
         Gen { rng, prop, counter: 0, in_subninja: 0, shadowed: Vec::new() }
     }
 
+    /// a variable name; for C11 sometimes one that is spelled like a magic variable ($in, $out, ...):
+    /// those are ordinary names in file scope and build blocks, and must lose against the magic
+    /// ones inside a rule's bindings even when the step has no explicit inputs/outputs
+    fn var_name(&mut self) -> String {
+        if self.prop == "C11" && self.rng.chance(1, 6) {
+            // `builddir` is the one variable n2 itself looks up (in the top-level scope when loading ends):
+            // bound in an included file it counts, bound in a subninja file or a build block it does not
+            return (*self.rng.pick(&["in", "out", "in_newline", "out_newline", "builddir", "builddir"])).to_string();
+        }
+        self.rng.pick(&VAR_NAMES[..]).to_string()
+    }
+
     fn fresh_out(&mut self) -> Ev {
         self.counter += 1;
         let deco = *self.rng.pick(&["", "", "o/", "sp ace/", "é/", "c:/", "$/", "bs\\"]);
@@ -570,7 +586,10 @@ impl<'a> Gen<'a> {
                     // literal parts must not start a value with spaces that would be eaten
                     v.push(Part::Lit(w.to_string()));
                 }
-                2 | 3 => v.push(Part::Ref(self.rng.pick(&VAR_NAMES[..]).to_string())),
+                2 | 3 => {
+                    let n = self.var_name();
+                    v.push(Part::Ref(n))
+                }
                 4 => v.push(Part::Ref((*self.rng.pick(&["in", "out", "in_newline", "out_newline"])).to_string())),
                 _ => v.push(Part::Lit(" ".into())),
             }
@@ -609,7 +628,7 @@ impl<'a> Gen<'a> {
             let k = self.rng.below(if c11 { 12 } else { 10 });
             match k {
                 0 | 10 | 11 => {
-                    let n = self.rng.pick(&VAR_NAMES[..]).to_string();
+                    let n = self.var_name();
                     let mut val = self.value(false);
                     if self.rng.chance(1, 4) {
                         // self reference: x = ${x}y
@@ -683,7 +702,7 @@ impl<'a> Gen<'a> {
                     if self.rng.chance(if c11 { 3 } else { 1 }, 4) {
                         let nb = self.rng.range(1, 3);
                         for _ in 0..nb {
-                            let n = self.rng.pick(&VAR_NAMES[..]).to_string();
+                            let n = self.var_name();
                             if n == "dir" {
                                 continue;
                             }
